@@ -16,7 +16,7 @@ META = {
                   'error kinds, pool states, timer fires, late responses, page fetches): each registered callback/errback pair runs at most '
                   'once per page fetch, never both, result() reports the delivered value, and once all requests are answered (or the '
                   'timeout handler ran) the outcome has been delivered exactly once. C14_without_guard_refuted: the same model without the '
-                  'first-wins guard violates it (3 witnesses, replayed on the real class every run).',
+                  'first-wins guard violates it (2 witnesses, replayed on the real class every run); C14_lock_protocol: the lock-region protocol of _set_final_result vs add_callback runs a callback exactly once under every thread interleaving.',
     'level_note': 'Model tied by correspondence, not by translation: real ResponseFuture vs model after every step of generated and '
                   'exhaustively enumerated histories. One op = one call into the class; finer interleavings of two threads inside '
                   '_set_final_* rest on the _callback_lock audit. Not modelled: set_keyspace/schema-change/unprepared responses '
